@@ -305,21 +305,29 @@ impl CodegenContext {
         let path: IdentifierPath = "segments".into();
 
         let segments = std::mem::replace(&mut self.segments, IndexMap::new());
+        let mut result = Ok(());
         for (name, segment) in &segments {
             let path = path.join(name);
 
-            self.add_symbol(
-                path.join("start"),
-                self.symbol(None, segment.range().start as i64, SymbolType::Constant),
-            )?;
-
-            self.add_symbol(
-                path.join("end"),
-                self.symbol(None, segment.range().end as i64, SymbolType::Constant),
-            )?;
+            // (a symbol of the user's may be in the way; the segments have to be put back in any case)
+            result = self
+                .add_symbol(
+                    path.join("start"),
+                    self.symbol(None, segment.range().start as i64, SymbolType::Constant),
+                )
+                .and_then(|_| {
+                    self.add_symbol(
+                        path.join("end"),
+                        self.symbol(None, segment.range().end as i64, SymbolType::Constant),
+                    )
+                })
+                .map(|_| ());
+            if result.is_err() {
+                break;
+            }
         }
         self.segments = segments;
-        Ok(())
+        result
     }
 
     fn after_pass(&mut self) -> CoreResult<()> {
@@ -409,11 +417,14 @@ impl CodegenContext {
                                 && existing.data != symbol.data
                                 && existing.read_only())
                         {
-                            let span = symbol.span.expect("no span provided");
-                            return Err(Diagnostic::error()
-                                .with_message(format!("cannot redefine symbol: {}", &path))
-                                .with_labels(vec![span.to_label()])
-                                .into());
+                            // (a generated symbol, e.g. 'segments.default.start', has no span of its own: then it is
+                            // the existing symbol that stands in its way)
+                            let mut diag = Diagnostic::error()
+                                .with_message(format!("cannot redefine symbol: {}", &path));
+                            if let Some(span) = symbol.span.or(existing.span) {
+                                diag = diag.with_labels(vec![span.to_label()]);
+                            }
+                            return Err(diag.into());
                         }
 
                         // If the symbol already existed but with a different value,
@@ -1595,7 +1606,9 @@ pub fn codegen(
                 errors = e.with_code_map(&ctx.tree.code_map);
             }
         }
-        ctx.after_pass().expect("Could not finalize pass");
+        if let Err(e) = ctx.after_pass() {
+            errors.extend(e);
+        }
         #[cfg(mos_verif)]
         if ctx.verif_after_pass(&errors) {
             return (Some(ctx), errors);
